@@ -33,6 +33,11 @@ CHECKS = {
         "thorough": {"runs": 400000, "wall_s": 1500, "runs_per_spec": 40, "run_wall_cap": 15, "grammar": GRAMMAR_DEFAULT},
     },
     "C13": {
+        "further": [{
+            "sim": "protosim",
+            "quick": {"runs": 20000, "wall_s": 45, "runs_per_spec": 12, "run_wall_cap": 20, "proto": {}, "faults": False, "probes_not_expected": ["walk_step"]},
+            "thorough": {"runs": 400000, "wall_s": 900, "runs_per_spec": 20, "run_wall_cap": 30, "proto": {"max_types": 7, "max_states": 4}, "faults": False, "probes_not_expected": ["walk_step"]},
+        }],
         "sim": "fragsim",
         "quick": {"runs": 60000, "wall_s": 60, "runs_per_spec": 40, "run_wall_cap": 10, "grammar": dict(GRAMMAR_DEFAULT, recursion_rate=0.3), "ambiguous_regex_rate": 0.1},
         "thorough": {"runs": 600000, "wall_s": 1500, "runs_per_spec": 60, "run_wall_cap": 10, "grammar": dict(GRAMMAR_DEFAULT, max_rules=7), "ambiguous_regex_rate": 0.15},
@@ -117,8 +122,8 @@ MANIFEST_TEXT = {
     "C13": {
         "level": "Seeded exploration of (grammar, input, cut set, consumption style, can_continue interrogation) tuples against a fresh whole-input parse; every failure is a minimised replayable decision trace. Exploration is the right level because the quantifier ranges over all compositions of all inputs of all grammars; cut sets are sampled (for short inputs most of the 2^(n-1) compositions are hit over a run, never claimed exhaustive).",
         "design_ref": "DESIGN.md §6.4",
-        "note": _NOTE + " Reference for C13 is a fresh IterativeParser fed the whole input.",
-        "technique": "deterministic simulation: scheduler-chosen fragmentation of the input stream (FragSim) with differential oracle against whole-input feeding",
+        "note": _NOTE + " Reference for C13 is a fresh IterativeParser fed the whole input. The same command then runs fault-free ProtoSim interactions (end to end: remote data cut and coalesced by the simulated transport, chunks spanning message boundaries) and reports, under C13, messages that end up different from what the peer emitted and valid data that is rejected or ignored.",
+        "technique": "deterministic simulation: scheduler-chosen fragmentation of the input stream (FragSim) with differential oracle against whole-input feeding, plus protocol-mode interactions under a virtual clock with scheduler-chosen fragmentation/coalescing of remote data (ProtoSim) checked against the peers' send logs",
     },
 }
 
